@@ -20,13 +20,16 @@ Definition then_ (a : cres) (f : done -> cres) : cres :=
 Definition emit (h : hdr) (e : ev) (d : done) : cres := Ok ([(h, e)], d).
 Definition nothing (d : done) : cres := Ok ([], d).
 
+(* construct the nodes one after the other *)
+Fixpoint seq_nodes (sub : done -> node -> cres) (ns : list node) (d : done) : cres :=
+  match ns with
+  | [] => nothing d
+  | x :: ns' => then_ (sub d x) (seq_nodes sub ns')
+  end.
+
 (* _construct of each kind; `sub d n` constructs child n *)
 Definition body (h : hdr) (subs : list node) (sub : done -> node -> cres) (d : done) : cres :=
-  let fix seq (ns : list node) (d : done) : cres :=
-    match ns with
-    | [] => nothing d
-    | x :: ns' => then_ (sub d x) (seq ns')
-    end in
+  let seq := seq_nodes sub in
   let own := emit h (EvResolve (h_module h) (h_class h)) in
   match h_kind h with
   | KDict | KList | KSet | KTuple | KCtorReduce | KRandomState | KObject | KOperatorFunc =>
